@@ -27,6 +27,7 @@ type violation struct {
 	Exp  string                 `json:"exp"`
 	Obs  string                 `json:"obs"`
 	stage  string // stage whose worker reported it
+	probe  bool   // reported by an order-probe stage (another property's enumeration)
 	proven bool   // needs no replay confirmation (race detector report)
 	// crash-type candidates (worker died / hung on this case)
 	crash   bool
@@ -65,6 +66,12 @@ var stageWorker = map[string]string{}
 type stage struct {
 	Name   string
 	Check  string // worker check of this stage (default: the property's)
+	Props  string // properties whose oracles are enabled in this stage (default: the property itself)
+	// OrderProbe: the stage runs ANOTHER property's enumeration in long-lived worker processes; a candidate of
+	// that enumeration which does not reproduce alone in a fresh process is an order dependence between
+	// applications (C20); one that does reproduce alone belongs to that other property and is ignored here
+	OrderProbe bool
+	Thorough   bool // stage runs in the thorough tier only
 	Build  string // plain | instr | race
 	Params string
 	Shards int
@@ -411,7 +418,12 @@ func cmdRun(prop, tier string) int {
 	}()
 	stageNotes := map[string]string{}
 	var raceReports []string
+	var probeEvals int64
+	built := map[string]string{}
 	for _, stg := range stages {
+		if stg.Thorough && tier != "thorough" {
+			continue
+		}
 		var extra map[string]string
 		if stg.Build == "instr" {
 			dir := filepath.Join(buildDir, fmt.Sprintf("instr-%d", os.Getpid()))
@@ -426,16 +438,24 @@ func cmdRun(prop, tier string) int {
 			extra = repl
 			stageNotes["instrumentation"] = fmt.Sprintf("%d files instrumented, %d sites (%d tagged accesses to package-level variables); package-level variables of the module: %s", ist.Files, ist.Sites, ist.Tagged, strings.Join(ist.Vars, ", "))
 		}
-		worker, err := buildWorker(repoDir, stg.Build == "race", extra, prop+"-"+stg.Name)
-		if err != nil {
-			fmt.Fprintln(os.Stderr, err)
-			fmt.Printf("CHECK-ERROR property=%s the worker does not build against the current tree\n", prop)
-			return 2
+		worker := built[stg.Build]
+		if worker == "" {
+			var err error
+			worker, err = buildWorker(repoDir, stg.Build == "race", extra, prop+"-"+stg.Name)
+			if err != nil {
+				fmt.Fprintln(os.Stderr, err)
+				fmt.Printf("CHECK-ERROR property=%s the worker does not build against the current tree\n", prop)
+				return 2
+			}
+			workers = append(workers, worker)
+			built[stg.Build] = worker
 		}
-		workers = append(workers, worker)
 		r = &runner{def: def, tier: tier, worker: worker, nshards: jobs(), props: prop, hang: def.HangSecs, procs: map[*exec.Cmd]bool{}}
 		if stg.Shards > 0 {
 			r.nshards = stg.Shards
+		}
+		if stg.Props != "" {
+			r.props = stg.Props
 		}
 		if r.hang == 0 {
 			r.hang = 20
@@ -483,6 +503,16 @@ func cmdRun(prop, tier string) int {
 			if sr != nil {
 				for i := range sr.viols {
 					sr.viols[i].stage = stg.Name
+					sr.viols[i].probe = stg.OrderProbe
+				}
+				if stg.OrderProbe {
+					// the probe's own counters must not be mixed into the property's coverage
+					probeEvals += sr.counters["evaluations"]
+					for k := range sr.counters {
+						delete(sr.counters, k)
+					}
+					sr.samples = map[string][]interface{}{}
+					sr.notes = map[string]string{}
 				}
 			}
 		}
@@ -539,6 +569,33 @@ func cmdRun(prop, tier string) int {
 		}
 		seen[v.Key] = true
 		cands = append(cands, v)
+	}
+	// order probes: candidates of other enumerations that fail only after other applications ran in the same process
+	probeChecked := 0
+	for i := range agg.viols {
+		v := &agg.viols[i]
+		if !v.probe || probeChecked >= 6 {
+			continue
+		}
+		probeChecked++
+		file := writeReplay(v)
+		if w := stageWorker[v.stage]; w != "" {
+			r.worker = w
+		}
+		alone, why := r.confirmReplay(v, file)
+		os.Remove(file)
+		if alone || strings.Contains(why, "replay could not be executed") {
+			continue // reproduces alone: a violation of that other property, not an order dependence
+		}
+		key := fmt.Sprintf("order dependence: %s case %s fails only after other applications ran in the same process", v.Prop, v.Key)
+		if !seen["order"] {
+			seen["order"] = true
+			cands = append(cands, &violation{Prop: prop, Key: key, proven: true, Case: map[string]interface{}{"check": def.Check, "mode": "order-probe", "stage": v.stage, "other_property": v.Prop, "case": v.Case},
+				Exp: "an application's outcome does not depend on which applications were built and run before it in the process (alone in a fresh process this case passes: " + why + ")", Obs: v.Obs})
+		}
+	}
+	if probeEvals > 0 {
+		agg.counters["order_probe_cases_run_in_long_lived_processes"] = probeEvals
 	}
 	for _, rep := range raceReports {
 		key := "race detector: " + firstLine(rep)
